@@ -27,6 +27,8 @@ CHECKS = {
     "C10": dict(text="BitEnum!EnumValid is the documented rule; TLC enumerates every discriminant set for N<=2 (3 thorough) x exhaustive setting x order plus form/cfg/boundary/count families; verdicts validated by TLC; every accepted enum is then walked over all raw values and variants (no panic, no failure for exhaustive ones).", technique="TLA+ rule + TLC-enumerated enum declarations compiled by the real macro; verdict + trace validation by TLC", ref="6/C10"),
     "C14": dict(text="Builder.tla type-state machine model-checked; Decl!BuilderSound and the three-valued Decl!ChainVerdict decide: builder() probe and EVERY call chain of length <= m+1 on 21 layouts compiled against the real macro, verdicts validated by TLC.", technique="TLA+ type-state model + exhaustive call-chain enumeration; compile verdicts validated by TLC", ref="6/C14"),
     "C17": dict(text="Decl!Api/AbsentApi (partition checked by TLC); presence/absence probes for getter/with_/set_ and builder steps of 12 field kinds x 4 access specifiers compiled from another module; absence must be E0599; validated by TLC.", technique="TLA+ API-surface rule; compile probes validated by TLC", ref="6/C17"),
+    "C15": dict(text="Decl!Api marks every member but set_ const (checked by TLC); one const item per const member (ZERO, DEFAULT, new, conversions, getters, with_, builder(), steps, build(), enum conversions) must compile; a seeded straight-line program per declaration is evaluated once as const items and once at run time, both recorded as traces and validated against Register.tla.", technique="TLA+ API rule; const-item compile probes + const-vs-runtime trace validation by TLC", ref="6/C15"),
+    "C18": dict(text="The specification supplies the population (TLC-enumerated valid declarations of every feature combination, documented) and the verdict (the regime must not matter: Valid => compiles); the corpus is compiled as a #![no_std] #![deny(missing_docs)] #![forbid(unsafe_code)] library and every expansion dumped by the verif_hooks hook is checked for `unsafe` tokens and foreign path roots; events validated by TLC (VerdictTrace.tla). Thinnest use of the model: a syntactic invariant on recorded expansions plus rustc's verdict.", technique="TLC-enumerated corpus under three crate regimes; recorded macro expansions checked for unsafe/foreign paths", ref="6/C18", category="model_checking"),
     "C19": dict(text="DebugFmt!ComposeLines (standard struct format, PadAdapter rule) over the getter renderings; debug events ({:?}, {:#?}) of Q-dbg and seeded layouts validated; small getter renderings checked against the spec's values.", technique=TV, ref="6/C19"),
 }
 
